@@ -72,12 +72,21 @@ pub fn observe(ops: &[BOp], env: &Env) -> String {
     rec.set_caller();
     let out = Arc::new(Mutex::new(Vec::new()));
     let mut next = 0usize;
+    // every other tree is built with build_async (the same pool bookkeeping on another path)
+    let use_async = text(ops).len() % 2 == 1;
     let r = catch_unwind(AssertUnwindSafe(|| {
         let b = build_ops(ops, &mut next, env, &out, &rec);
-        let mut d = b.build();
-        let mut w = World::empty();
-        d.setup(&mut w);
-        d.dispatch(&w);
+        if use_async {
+            let mut ad = b.build_async(World::empty());
+            ad.setup();
+            ad.dispatch();
+            ad.wait();
+        } else {
+            let mut d = b.build();
+            let mut w = World::empty();
+            d.setup(&mut w);
+            d.dispatch(&w);
+        }
     }));
     if r.is_err() { return "panic".into(); }
     let mut v = out.lock().unwrap().clone();
